@@ -222,10 +222,10 @@ def reset (m : Nat) : P Unit := modifyState fun s => { s with idx := m, ticks :=
 /-- `self.clex.filename` as an error location -/
 def lexFileLoc : P Loc := fun s => .ok (.fileRef s.fileRef) s
 
-/-- `_tok_coord` : line/column of the token, file name of the lexer *now*.
-In the core this is the pseudo-coordinate (token index, file reference) in the `line` / `col`
-fields; `finish` resolves it. -/
-def tokCoord (t : PTok) : P Coord := fun s => .ok ⟨"", t.idx, some s.fileRef⟩ s
+/-- `_tok_coord` : line, column and file name recorded on the token when it was lexed.
+In the core this is the pseudo-coordinate (token index, file reference `idx + 1` = the file in
+force when that token was returned) in the `line` / `col` fields; `finish` resolves it. -/
+def tokCoord (t : PTok) : P Coord := fun s => .ok ⟨"", t.idx, some (t.idx + 1)⟩ s
 
 /-- `_advance` -/
 def advance : P PTok := do
